@@ -11,7 +11,7 @@
     level of the full-space specification EDSpec.susc (every imaginary z, resonant term included). *)
 Require Import Reals List Arith Bool.
 From Coquelicot Require Import Complex.
-From PV Require Import Outcome Thermal ThermalSpec ThermalProofs ThermalExamples.
+From PV Require Import Outcome Thermal ThermalSpec ThermalProofs ThermalExamples ThermalHot.
 Import ListNotations.
 Local Open Scope R_scope.
 
@@ -27,6 +27,16 @@ Theorem truncate_weights : forall (eps : R) (dp : Rdmpart),
   dp_weights R (Rtruncate eps dp) = dp_weights R dp /\ dp_zpart R (Rtruncate eps dp) = dp_zpart R dp.
 Proof. exact ThermalProofs.truncate_weights. Qed.
 Print Assumptions truncate_weights.
+
+(** The weight test cannot be replaced by a cut on excitation energies that lacks the factor beta: two levels 0 and 16 at beta = 1/8,
+    eps = 1/100 -- the gap exceeds -ln eps, beta * gap does not, and the excited block is RETAINED by truncate (its weight is
+    exp(-2)/(1+exp(-2)) > eps). *)
+Theorem energy_cut_without_beta_refuted :
+  hot_gap > - ln hot_eps /\
+  hot_beta * hot_gap < - ln hot_eps /\
+  dp_retained R (Rtruncate hot_eps (mk_dmpart R [hot_w1] hot_w1 true)) = true.
+Proof. exact ThermalHot.energy_cut_without_beta_refuted. Qed.
+Print Assumptions energy_cut_without_beta_refuted.
 
 (** eps = 0 keeps every block with a positive weight ... *)
 Theorem truncate_zero_keeps_positive : forall dp : Rdmpart,
